@@ -328,9 +328,17 @@ func (e *ExecutionEngine) getCachedPlan(ctx *internalExecutionContext, operation
 
 	cacheKey := hash.Sum64()
 
-	if cached, ok := e.executionPlanCache.Get(cacheKey); ok {
-		if p, ok := cached.(plan.Plan); ok {
-			return p, p.GetCostCalculator()
+	// With request tracing the loader records the trace of every fetch in the fetch nodes of the plan
+	// it executes (fetch.Trace) and the trace output is rendered from there: the plan of a traced
+	// request is per-request state. It is planned afresh and never shared through the cache, otherwise
+	// a traced request can be answered with the subgraph inputs and outputs of another one.
+	useCache := !ctx.resolveContext.TracingOptions.Enable
+
+	if useCache {
+		if cached, ok := e.executionPlanCache.Get(cacheKey); ok {
+			if p, ok := cached.(plan.Plan); ok {
+				return p, p.GetCostCalculator()
+			}
 		}
 	}
 
@@ -341,7 +349,9 @@ func (e *ExecutionEngine) getCachedPlan(ctx *internalExecutionContext, operation
 	}
 
 	ctx.postProcessor.Process(planResult)
-	e.executionPlanCache.Add(cacheKey, planResult)
+	if useCache {
+		e.executionPlanCache.Add(cacheKey, planResult)
+	}
 	return planResult, planResult.GetCostCalculator()
 }
 
